@@ -280,7 +280,9 @@ func TestVerifHarness(t *testing.T) {
 			checkScale(resp, name, Header_1E6, worker_1E6, 125000, req.Seed)
 		case "columns-1E8":
 			if req.Budget == "thorough" {
-				checkScale(resp, name, Header_1E8, worker_1E8, 12500000, req.Seed)
+				// the 10^8-bit worker and header on a 4*10^6-bit file: the column/header correspondence does not depend on the
+				// file size, and a full-size file costs hours (linear complexity with m = 5000 on 10^8 bits, twice)
+				checkScale(resp, name, Header_1E8, worker_1E8, 500000, req.Seed)
 			}
 		default:
 			resp.Errors = append(resp.Errors, "unknown check "+name)
